@@ -75,6 +75,9 @@ void vp_reg_clear (void);
 int vp_condition (const void *arg);   /* the client's condition: arbitrary result; C06: only ever called with the mutex held */
 extern waiter vp_my_w; /* this thread's own (reserved) waiter record */
 extern waiter vp_fw;
+#ifdef VP_TWO_RECORDS
+extern waiter vp_fw2;
+#endif
 void vp_fw_init (void);
 /* the fields of the foreign record that the abstract queue re-havocs */
 #define VP_FW_DATA vp_fw.nw.waiting, vp_fw.nw.flags, vp_fw.remove_count, vp_fw.cv_mu, vp_fw.flags, vp_fw.l_type, vp_fw.cond.f   /* the abstract queue's foreign waiter record (arbitrary contents) */
